@@ -327,39 +327,49 @@ class CSSStyleSheet(cssutils.stylesheets.StyleSheet):
         # not used?!
         newseq = []
 
+        def reset():
+            self._cssRules = oldCssRules
+            self._namespaces = oldNamespaces
+            self._updateVariables()
+            self._cleanNamespaces()
+
         # ['CHARSET', 'IMPORT', ('VAR', NAMESPACE'), ('PAGE', 'MEDIA', ruleset)]
-        wellformed, expected = self._parse(
-            0,
-            newseq,
-            tokenizer,
-            {
-                'S': S,
-                'COMMENT': COMMENT,
-                'CDO': S,
-                'CDC': S,
-                'CHARSET_SYM': charsetrule,
-                'FONT_FACE_SYM': fontfacerule,
-                'IMPORT_SYM': importrule,
-                'NAMESPACE_SYM': namespacerule,
-                'PAGE_SYM': pagerule,
-                'MEDIA_SYM': mediarule,
-                'VARIABLES_SYM': variablesrule,
-                'ATKEYWORD': unknownrule,
-            },
-            default=ruleset,
-        )
+        try:
+            wellformed, expected = self._parse(
+                0,
+                newseq,
+                tokenizer,
+                {
+                    'S': S,
+                    'COMMENT': COMMENT,
+                    'CDO': S,
+                    'CDC': S,
+                    'CHARSET_SYM': charsetrule,
+                    'FONT_FACE_SYM': fontfacerule,
+                    'IMPORT_SYM': importrule,
+                    'NAMESPACE_SYM': namespacerule,
+                    'PAGE_SYM': pagerule,
+                    'MEDIA_SYM': mediarule,
+                    'VARIABLES_SYM': variablesrule,
+                    'ATKEYWORD': unknownrule,
+                },
+                default=ruleset,
+            )
+        except Exception:
+            # raising mode: a rejected text must not leave half a sheet behind
+            reset()
+            raise
 
         if wellformed:
             # use proper namespace object
             self._namespaces = _Namespaces(parentStyleSheet=self, log=self._log)
             self._cleanNamespaces()
+            # the replaced rules are not part of this sheet anymore
+            for rule in oldCssRules:
+                rule._parentStyleSheet = None
 
         else:
-            # reset
-            self._cssRules = oldCssRules
-            self._namespaces = oldNamespaces
-            self._updateVariables()
-            self._cleanNamespaces()
+            reset()
 
     cssText = property(
         _getCssText,
